@@ -50,6 +50,10 @@ def actions(depth, nspecs, queue=False, max_size=3, only_posts=False):
             st.tuples(st.just("rm_event"), spec_i),
             st.tuples(st.just("rm_method"), spec_i),
             st.tuples(st.just("replace"), spec_i)]
+    if not queue:
+        # futures: wait_for_event / wait_for_any_event and post_async / post_relay_async
+        alts += [st.tuples(st.just("wait_any"), st.lists(st.integers(0, NEV - 1), min_size=1, max_size=3, unique=True)),
+                 st.tuples(st.just("post_async"), st.integers(0, NEV - 1), st.sampled_from([None, "relay"]), kw)]
     if depth > 0:
         inner = st.deferred(lambda: actions(depth - 1, nspecs, queue, 2))
         alts += [st.tuples(st.just("delay_add"), st.integers(0, 1), st.sampled_from([1, 10, 50, 5000]), inner),
@@ -133,6 +137,8 @@ class Interp:
         self.pending_clears = 0
         self.sleeping = 0
         self.waiters_on_event = {}
+        self.n_waits = 0
+        self.async_futs = {}
         if case.get("sentinels", True):
             for e in range(NEV):
                 self.ev.add_handler("e%d" % e, functools.partial(self._sentinel, e), SENT_PRIO)
@@ -158,9 +164,17 @@ class Interp:
         inv = self.n_inv
         self.n_inv += 1
         self._log("INV_START", inv, "S%d" % e, kwargs.get("pid"), self._strip(kwargs), self._t())
+        self._log_async_state(inv)
         if self.stack:
             self._log("NESTED", inv, list(self.stack))
         self._log("INV_END", inv, None, None)
+
+    def _log_async_state(self, inv):
+        """Which post_async futures are already resolved when this handler starts (seen synchronously)."""
+        if self.async_futs:
+            done = [pid for pid, f in self.async_futs.items() if f.done()]
+            if done:
+                self._log("ADONE", inv, done)
 
     def _mk_fn(self, i):
         def handler(**kwargs):
@@ -212,6 +226,7 @@ class Interp:
         sp = self.specs[i]
         pid = kwargs.get("pid")
         self._log("INV_START", inv, i, pid, self._strip(kwargs), self._t())
+        self._log_async_state(inv)
         if self.stack:
             self._log("NESTED", inv, list(self.stack))
         old = self.ctx
@@ -326,6 +341,37 @@ class Interp:
                 self.ev.post_relay(name, callback, **kwargs)
             else:
                 self.ev.post_queue(name, callback, **kwargs)
+        elif kind == "wait_any":
+            if self.n_waits >= 8:
+                return
+            wid = self.n_waits
+            self.n_waits += 1
+            names = ["e%d" % e for e in a[1]]
+            self._log("WAITREG", wid, list(a[1]), list(self.ctx))
+            fut = self.ev.wait_for_event(names[0]) if len(names) == 1 else self.ev.wait_for_any_event(names)
+
+            def waited(f, wid=wid):
+                r = f.result()
+                self._log("WAITDONE", wid, r.get("pid"), r.get("event"), self._t())
+            fut.add_done_callback(waited)
+        elif kind == "post_async":
+            _, e, typ, kwargs = a
+            if self.budget <= 0:
+                self.skipped_posts += 1
+                return
+            self.budget -= 1
+            pid = self.n_pid
+            self.n_pid += 1
+            kwargs = dict(kwargs)
+            kwargs["pid"] = pid
+            self._log("POST", pid, e, typ, list(self.ctx), False, dict(kwargs), self._t())
+            self._log("ASYNCPOST", pid)
+            fut = (self.ev.post_relay_async if typ == "relay" else self.ev.post_async)("e%d" % e, **kwargs)
+
+            def done(f, pid=pid):
+                self._log("ASYNCDONE", pid, self._strip(f.result()), self._t())
+            fut.add_done_callback(done)
+            self.async_futs[pid] = fut
         elif kind == "add":
             self._add(a[1])
         elif kind == "rm_key":
@@ -506,7 +552,88 @@ class Oracle:
         if self.sentinels and getattr(self, "order_checks", True):
             self.check_order(order)
         self.check_callbacks()
+        self.check_futures()
         return self.vio
+
+    # futures -----------------------------------------------------------------------------------
+    def check_futures(self):
+        """wait_for_(any_)event: the future resolves exactly once, with the kwargs of the first dispatch of one of its
+        events that began after the wait was registered (a dispatch that was aborted by a False result before the
+        lowest-priority handler may or may not have reached it). post_async: the future resolves exactly once, after
+        every handler of the event and of everything posted from them has run."""
+        log = self.log
+        waits, done, apost, adone = {}, {}, {}, {}
+        seen_done = []      # (invocation, post_async pids whose future was already done when it started)
+        for pos, e in enumerate(log):
+            if e[0] == "WAITREG":
+                waits[e[1]] = {"events": e[2], "ctx": e[3], "pos": pos}
+            elif e[0] == "WAITDONE":
+                done.setdefault(e[1], []).append({"pid": e[2], "event": e[3], "pos": pos})
+            elif e[0] == "ASYNCPOST":
+                apost[e[1]] = pos
+            elif e[0] == "ASYNCDONE":
+                adone.setdefault(e[1], []).append({"kwargs": e[2], "pos": pos})
+            elif e[0] == "ADONE":
+                seen_done.append((e[1], e[2]))
+        self.n_waits, self.n_waits_done, self.n_async = len(waits), len(done), len(apost)
+        for wid, w in waits.items():
+            inside = w["ctx"][2] if w["ctx"][0] == "inv" else None      # registered from a handler of this dispatch
+            # dispatches of one of the events, in the order they began, after the registration
+            cands = []
+            unseen = []     # without the always-registered handlers a dispatch may run no logged handler at all: when
+            #                 it began is unknown then, it is allowed to resolve the future but never has to
+            for pid, p in self.posts.items():
+                if p["event"] not in w["events"] or pid == inside:
+                    continue
+                if not p["invs"]:
+                    unseen.append(pid)
+                    continue
+                first = self.invs[p["invs"][0]]
+                if first["pos"] < w["pos"]:
+                    continue
+                complete = any(isinstance(self.invs[i]["spec"], str) for i in p["invs"])     # the sentinel ran: not aborted
+                cands.append((first["pos"], pid, complete))
+            cands.sort()
+            must = next((c for c in cands if c[2]), None)
+            allowed = [c[1] for c in cands if must is None or c[0] <= must[0]] + unseen
+            d = done.get(wid, [])
+            if len(d) > 1:
+                self.v("wait-future-resolved-twice", "wait_for_any_event(%r) resolved %d times" % (w["events"], len(d)))
+            elif d:
+                if d[0]["pid"] not in allowed:
+                    self.v("wait-future-wrong-event", "wait_for_any_event(e%r) registered at log position %d resolved with "
+                           "pid %r (event %r); the dispatches that could resolve it are %r" % (
+                               w["events"], w["pos"], d[0]["pid"], d[0]["event"], allowed))
+                elif d[0]["event"] != "e%d" % self.posts[d[0]["pid"]]["event"]:
+                    self.v("wait-future-wrong-kwargs", "wait_for_any_event(e%r) resolved with event=%r for a post of e%d" % (
+                        w["events"], d[0]["event"], self.posts[d[0]["pid"]]["event"]))
+            elif must is not None and self.sentinels:
+                self.v("wait-future-not-resolved", "wait_for_any_event(e%r) registered at log position %d was never resolved "
+                       "although e%d (pid %d) was dispatched completely afterwards" % (
+                           w["events"], w["pos"], self.posts[must[1]]["event"], must[1]))
+        for pid, pos in apost.items():
+            d = adone.get(pid, [])
+            if len(d) != 1:
+                self.v("post_async-future-resolved-%d-times" % len(d), "post_async of e%d (pid %d): the future resolved %d times "
+                       "by the end of the run" % (self.posts[pid]["event"], pid, len(d)))
+                continue
+            if d[0]["kwargs"].get("pid") != pid:
+                self.v("post_async-wrong-result", "post_async pid %d resolved with %r" % (pid, d[0]["kwargs"]))
+            # the subtree of the post: everything posted from its handlers (transitively)
+            tree = {pid}
+            grew = True
+            while grew:
+                grew = False
+                for q, p in self.posts.items():
+                    if q not in tree and p["ctx"][0] in ("inv", "cb") and (
+                            (p["ctx"][0] == "inv" and p["ctx"][2] in tree) or (p["ctx"][0] == "cb" and p["ctx"][1] in tree)):
+                        tree.add(q)
+                        grew = True
+            late = [i for q in tree for i in self.posts[q]["invs"] if self.invs[i]["pos"] > d[0]["pos"]]
+            late += [inv for inv, pids in seen_done if pid in pids and self.invs[inv]["pid"] in tree]
+            if late:
+                self.v("post_async-resolved-early", "post_async pid %d resolved at log position %d before handler invocations %r "
+                       "of its own subtree ran" % (pid, d[0]["pos"], late[:5]))
 
     # registry replay -------------------------------------------------------------------------
     def live_at(self, pos):
